@@ -22,21 +22,29 @@ type resizePolicy struct {
 
 var (
 	policyMu    sync.Mutex
-	policyCache = map[int]resizePolicy{}
+	policyCache = map[int]*resizePolicy{}
 )
 
-func policyOf(c ContainerKind) resizePolicy {
+// growPolicy / shrinkPolicy measure on first use (a scenario that needs neither must not depend on them).
+func growPolicy(c ContainerKind) int   { return policyOf(c, false).grow }
+func shrinkPolicy(c ContainerKind) int { return policyOf(c, true).shrink }
+
+func policyOf(c ContainerKind, needShrink bool) resizePolicy {
 	slots := c.slots()
 	policyMu.Lock()
 	defer policyMu.Unlock()
-	if p, ok := policyCache[slots]; ok {
-		return p
+	p := policyCache[slots]
+	if p == nil {
+		p = &resizePolicy{grow: -1, shrink: -1}
+		policyCache[slots] = p
+	}
+	if p.grow >= 0 && (!needShrink || p.shrink >= 0) {
+		return *p
 	}
 	kind := CMap
 	if slots != 3 {
 		kind = CMapOfInt
 	}
-	p := resizePolicy{grow: -1, shrink: -1}
 	// the measurement installs its own layout in the (global) hash hooks: put the caller's back afterwards
 	s0, h0, d0 := xsync.VerifSeed, xsync.VerifHashString, xsync.VerifHasher
 	defer func() { xsync.VerifSeed, xsync.VerifHashString, xsync.VerifHasher = s0, h0, d0 }()
@@ -49,7 +57,7 @@ func policyOf(c ContainerKind) resizePolicy {
 			m.Store(fillSpread+j, 2000+j)
 		}
 	}
-	for size := slots; size <= 32*slots; size++ {
+	for size := slots; p.grow < 0 && size <= 32*slots; size++ {
 		m := newContainer(kind, lay)
 		fill(m, size)
 		if m.Stats().TotalGrowths != 0 {
@@ -63,6 +71,9 @@ func policyOf(c ContainerKind) resizePolicy {
 	}
 	if p.grow < 0 {
 		panic(fmt.Sprintf("resize policy of %v cannot be measured: no table size at which an insert into a full chain grows the minimum table", kind))
+	}
+	if !needShrink {
+		return *p
 	}
 	for size := 1; size <= 2*slots+8; size++ {
 		m := newContainer(kind, lay)
@@ -94,6 +105,5 @@ func policyOf(c ContainerKind) resizePolicy {
 	if p.shrink < 0 {
 		panic(fmt.Sprintf("resize policy of %v cannot be measured: no table size at which a bucket-emptying delete shrinks the grown table", kind))
 	}
-	policyCache[slots] = p
-	return p
+	return *p
 }
